@@ -30,7 +30,7 @@ ASSUMPTIONS = [
     "the left-over keys of all-keys mode are tried 'most common byte first' (bytes filling aligned 4-byte groups of the decoded payload, as iter_beacon_config_blocks documents); that order is judged in the dominant-key class (one candidate's key byte pads a whole 4096-byte block, the other candidates' key bytes fill no group) and in the priority class (two padded blocks, the counts of complete aligned groups differ by 1..59; any buffer size); elsewhere any left-over-key block of the first view that has one is accepted, file order within one key is required",
     "filler contains no ff ff ff (it would add end-of-stub candidates to XorEncoded detection)",
 ]
-REQUIRED_MONITORS = ["model.block", "model.novalue", "constructors.agree", "repeat.other_keys", "XorEncodedFile.read.position"]
+REQUIRED_MONITORS = ["model.block", "model.novalue", "constructors.agree", "repeat.other_keys", "XorEncodedFile.read.position", "history.independent"]
 
 HDR = b"\x00\x01\x00\x01\x00\x02\x00"
 DEFAULT_KEYS = [b"\x69", b"\x2e", b"\x00"]
@@ -78,7 +78,60 @@ def extract(how, payload, keys, allk, beacon):
         os.unlink(tmp)
 
 
+def check_history(case, ctx):
+    """Several payloads analysed one after the other in the same process, through one re-filled file object and through
+    fresh objects: every extraction must be what the model says for that payload alone (no verdict of an earlier analysis
+    may be applied to a later payload)."""
+    from dissect.cobaltstrike import beacon
+
+    ctx.mon("history.independent")
+    fh = io.BytesIO()
+    for i, step in enumerate(case["steps"]):
+        payload = step["payload"]
+        for how in ("same-object", "fresh"):
+            if how == "same-object":
+                fh.seek(0)
+                fh.truncate()
+                fh.write(payload)
+                fh.seek(0)
+                f = fh
+            else:
+                f = io.BytesIO(payload)
+            try:
+                c = beacon.BeaconConfig.from_file(f)
+                got = ("ok", bytes(c.config_block)[: len(step["block"])], c.xorkey, c.guardrails is not None)
+            except ValueError:
+                got = ("ValueError",)
+            want = ("ok", step["block"], step["key"], step["guarded"])
+            if got != want:
+                ctx.violation("history.independent", f"payload #{i} ({step['what']}, analysed through {how} after {i} other payloads): got {core.short(got, 80)}, alone it gives "
+                              f"{core.short(want, 80)}", case)
+                return
+    ctx.ok(fp=("hist", tuple(s_["payload"] for s_ in case["steps"])), nontrivial=True, case={"op": "history", "steps": [s_["what"] for s_ in case["steps"]]},
+           classes=("history:" + ">".join(s_["what"] for s_ in case["steps"]),))
+
+
+def gen_history(rng):
+    cfg = (tlv.short(1, 8) + tlv.short(2, 4444) + tlv.S(26, 3, b"GET\0")).ljust(6144, b"\0")
+    envkey = rng.choice([b"GGGGGGG-WS01", b".......lan", b"GGGGGGGG", bytes([0x47]) * 7 + rng.randbytes(5)])
+    pre = rng.randrange(0, 3000)
+    gb, _ = P.guard_block(rng, cfg.rstrip(b"\0") + b"\0\0", envkey, [(5, 1, b"\x12\x34")])
+    guarded = {"what": "guardrails", "payload": P.filler(rng, pre) + gb + P.filler(rng, rng.randrange(0, 50)), "block": (cfg.rstrip(b"\0") + b"\0\0").ljust(6144, b"\0"),
+               "key": b"\x2e", "guarded": True}
+    steps = [guarded]
+    for _ in range(rng.randrange(1, 3)):
+        key = rng.choice([0x69, 0x2E, 0x00])
+        blk = (tlv.short(1, 0) + tlv.short(2, rng.randrange(1, 65536)) + tlv.S(3, 2, rng.randbytes(4))).ljust(4096, b"\0")
+        off = pre + rng.randrange(0, 8192)  # inside the offset range that the protected area occupied in the earlier payload
+        steps.append({"what": "plain", "payload": P.filler(rng, off, "random") + P.rx1(blk, key) + P.filler(rng, rng.randrange(0, 50)), "block": blk, "key": bytes([key]), "guarded": False})
+    if rng.random() < 0.5:
+        steps.append(guarded)
+    return {"op": "history", "steps": steps}
+
+
 def check_case(case, ctx):
+    if case.get("op") == "history":
+        return check_history(case, ctx)
     from dissect.cobaltstrike import beacon
 
     contracts.install_xordecode()
@@ -357,6 +410,7 @@ def plan(tier, seed):
     shards.append({"kind": "allkeys256", "budget_s": 50 if q else 2400, "timeout_s": 300 if q else 5400})
     shards[0]["dominant"] = 12 if q else 300
     shards[1]["priority"] = 24 if q else 600
+    shards[2]["history"] = 6 if q else 150
     return shards
 
 
@@ -378,6 +432,10 @@ def run_shard(shard, ctx):
         if ctx.out_of_time():
             break
         check_case(gen_dominant(rng), ctx)
+    for _ in range(shard.get("history", 0)):
+        if ctx.out_of_time():
+            break
+        check_case(gen_history(rng), ctx)
     for _ in range(shard.get("priority", 0)):
         if ctx.out_of_time():
             break
